@@ -1,6 +1,6 @@
 """C15 — non-semantic configuration macros and build settings never change results (bit-exact differential)."""
 import props
-from optable import Cfg, driver_stage
+from optable import Cfg, driver_stage, lang_stage
 
 SINGLE = [
     ('cxx98', ['-DGLM_FORCE_CXX98']), ('cxx03', ['-DGLM_FORCE_CXX03']), ('cxx11', ['-DGLM_FORCE_CXX11']), ('cxx14', ['-DGLM_FORCE_CXX14']),
@@ -33,13 +33,13 @@ def SPEC(tier):
         d.update(dict(COMBOS))
         cfgs += [Cfg(n, d[n]) for n in QUICK] + [Cfg('O0', opt='-O0'), Cfg('clang-O2', compiler='clang++'), Cfg('cxx98-clang', ['-DGLM_FORCE_CXX98'], compiler='clang++')]
     st = driver_stage('C15', cfgs, 'bits', 2000, 50000)
-    return {'stages': [st], 'assumptions': props.COMMON_ASSUME + ['"aligned types without intrinsics" cannot be built with gcc/clang on Linux (needs the MS language-extension flag, which only the SIMD arch bit provides); handedness, depth range, default precision and SIMD are semantic switches and deliberately absent'],
+    return {'stages': [st, lang_stage('C15')], 'assumptions': props.COMMON_ASSUME + ['"aligned types without intrinsics" cannot be built with gcc/clang on Linux (needs the MS language-extension flag, which only the SIMD arch bit provides); handedness, depth range, default precision and SIMD are semantic switches and deliberately absent'],
             'rule': 'one target per operation instance of the operation table, all on packed types; the same generated input slots go to a baseline library and to one library per configuration '
                     '(single macros, combinations, optimisation levels, both compilers); every output must be bit-identical (two NaNs count as equal); non-trivial = input slots not all equal'}
 
 
 META = dict(
-    technique='bit-exact differential testing between separately compiled GLM configurations (macro / language level / optimisation level / compiler) over a generated operation table',
+    technique='bit-exact differential testing between separately compiled GLM configurations (macro / language level / optimisation level / compiler) over a generated operation table, plus a C++98-compatible probe library built at -std=c++98/11/14/17/20 with g++ and clang++ (language level as detected, no macro)',
     text='The operation table (~4200 instances quick, ~6300 thorough; one case in eight is a two-call history f(x), f(other), f(x)) is compiled once per configuration into its own shared library; identical inputs are run through all of them in one process and every output is '
          'compared bit for bit against the baseline. Quick: 13 configurations; thorough: 35 (all single macros of the statement, 4 combinations, O0/O2/O3, g++ and clang++).',
     note='-ffp-contract=off -fno-fast-math are fixed across the matrix (compiler semantics, not GLM settings). Two NaN results are treated as equal whatever their payload.',
